@@ -96,8 +96,6 @@ Spec == Init /\ [][Next]_vars
 \* ---------------------------------------------------------------- invariants
 Done == phase = "done"
 TypeOK == phase \in {"gen", "apply", "done"} /\ Len(table) <= MaxRows /\ Len(filters) <= MaxFilters
-\* filtering only ever removes rows, and keeps their order
-Monotone == phase = "apply" => \A i \in 1..Len(table) : (fi = 1 \/ TRUE) /\ (live[i] \in BOOLEAN)
 \* IGNORE with text operators never raises: rows with text can be ignored (documented)
 TextNeverFails == (Done /\ \A i \in 1..Len(filters) : filters[i].op \in TextOps) => err = ""
 \* second, order-free definition for IGNORE lists WITHOUT numeric conversion problems: a row survives iff it matches none
